@@ -34,6 +34,7 @@ class _State:
         self.frozen = False
         self.depth = 0
         self.buffered = False
+        self.realkill = False
 
 
 S = _State()
@@ -78,6 +79,10 @@ def _effect(kind, rel, nbytes=None):
     S.count += 1
     label = (kind, _norm(rel), _site())
     S.log.append(label)
+    if S.realkill:
+        if S.crash_at is not None and k == S.crash_at:
+            os._exit(77)  # the process really dies: user-space buffers are lost, nothing is cleaned up
+        return "apply"
     if S.crash_at is not None and k == S.crash_at:
         S.frozen = True
         S.crash_label = label
@@ -169,6 +174,41 @@ class FaultFile:
         return getattr(self._f, name)
 
 
+class RealFile:
+    """Conformance mode (S.realkill): the real CPython file object with its real buffering; only
+    flush() and close() are kill points (a write() by itself changes nothing on disk that a kill
+    at the neighbouring points would not show, as long as the buffer does not overflow)."""
+
+    def __init__(self, real, rel):
+        self._f = real
+        self._rel = rel
+
+    def write(self, data):
+        return self._f.write(data)
+
+    def writelines(self, lines):
+        return self._f.writelines(lines)
+
+    def flush(self):
+        _effect("flush", self._rel)
+        return self._f.flush()
+
+    def close(self):
+        if not self._f.closed:
+            _effect("flush", self._rel)
+        return self._f.close()
+
+    def __enter__(self):
+        return self
+
+    def __exit__(self, *a):
+        self.close()
+        return False
+
+    def __getattr__(self, name):
+        return getattr(self._f, name)
+
+
 def _open(file, mode="r", *a, **k):
     if S.active and S.depth == 0 and isinstance(file, (str, os.PathLike)) and any(c in mode for c in "wax+"):
         rel = _rel(file)
@@ -184,6 +224,8 @@ def _open(file, mode="r", *a, **k):
                 if r == "drop":
                     return FaultFile(_orig["open"](os.devnull, "wb" if "b" in mode else "w"), rel)
             real = _orig["open"](file, mode, *a, **k)
+            if S.realkill:
+                return RealFile(real, rel)
             return FaultFile(real, rel)
     return _orig["open"](file, mode, *a, **k)
 
@@ -242,7 +284,8 @@ def uninstall():
 class section:
     """with faultfs.section(root, crash_at=k, torn=None): ... ; effects counted in .log"""
 
-    def __init__(self, root, crash_at=None, torn=None, buffered=False):
+    def __init__(self, root, crash_at=None, torn=None, buffered=False, realkill=False):
+        self.realkill = realkill
         self.root = os.path.abspath(root)
         self.crash_at = crash_at
         self.torn = torn
@@ -257,6 +300,7 @@ class section:
         S.crash_at = self.crash_at
         S.torn = self.torn
         S.buffered = self.buffered
+        S.realkill = self.realkill
         S.frozen = False
         S.depth = 0
         S.crash_label = None
@@ -266,4 +310,5 @@ class section:
         S.active = False
         S.frozen = False
         S.crash_at = None
+        S.realkill = False
         return False
